@@ -1002,4 +1002,150 @@ theorem calLaw : CalLaw := by
   have hy2 := hy2 (by omega)
   simp [validYMD, hm1, hm2, hd1, hd2, hy1, hy2]
 
+/-! ### Dates and datetimes (relative to `CalLaw`) -/
+
+theorem pad4_shape {y : Nat} (h : y ≤ 9999) :
+    ∃ a b c d, pad 4 y = [a, b, c, d] ∧ isDigit a = true ∧ isDigit b = true ∧ isDigit c = true
+      ∧ isDigit d = true ∧ digitsVal [a, b, c, d] 0 = y := by
+  have hl : (pad 4 y).length = 4 := pad_length (by decide) (by omega)
+  have hd : ∀ c ∈ pad 4 y, isDigit c = true := fun _ hc => isDigit_of_mem_pad hc
+  have hv := digitsVal_pad 4 y
+  generalize pad 4 y = p at hl hd hv
+  rcases p with _ | ⟨a, _ | ⟨b, _ | ⟨c, _ | ⟨d, _ | ⟨e, t⟩⟩⟩⟩⟩ <;> simp at hl
+  exact ⟨a, b, c, d, rfl, hd a (by simp), hd b (by simp), hd c (by simp), hd d (by simp), hv⟩
+
+theorem readDate?_digits {a b c d : Char} (ha : isDigit a = true) (hb : isDigit b = true)
+    (hc : isDigit c = true) (hd : isDigit d = true) {m dd : Nat} (hm : m < 100) (hdd : dd < 100) (rest : Str) :
+    readDate? (a :: b :: c :: d :: '-' :: (pad 2 m ++ '-' :: (pad 2 dd ++ rest)))
+      = some ({ y := digitsVal [a, b, c, d] 0, m := m, d := dd }, rest) := by
+  simp only [readDate?, ha, hb, hc, hd, Bool.and_self, if_true, take2?_pad2 hm, take2?_pad2 hdd]
+
+theorem daysInMonth_le (y m : Nat) : daysInMonth y m ≤ 31 := by
+  unfold daysInMonth
+  split <;> try omega
+  split <;> omega
+
+theorem allDigits_dash (a b c d : Char) (r : Str) : allDigits (a :: b :: c :: d :: '-' :: r) = false := by
+  simp [allDigits, isDigit]
+
+/-- Shape and read-back of a date text, for an ordinal in range. -/
+theorem dateText_read (cal : CalLaw) {o : Int} (h : inDateRange o = true) (rest : Str) :
+    ∃ a tl, isDigit a = true ∧ dateText o ++ rest = a :: tl ∧ allDigits (a :: tl) = false
+      ∧ readDate? (a :: tl) = some (civilOfOrd o.toNat, rest)
+      ∧ validYMD (civilOfOrd o.toNat) = true ∧ (ordOfCivil (civilOfOrd o.toNat) : Int) = o := by
+  simp only [inDateRange, Bool.and_eq_true, decide_eq_true_eq] at h
+  unfold maxOrd at h
+  obtain ⟨hoc, hv⟩ := cal.ord_civil o.toNat (by omega) (by omega)
+  have hv' := hv
+  simp only [validYMD, Bool.and_eq_true, decide_eq_true_eq] at hv'
+  obtain ⟨⟨⟨⟨⟨hy1, hy2⟩, hm1⟩, hm2⟩, hd1⟩, hd2⟩ := hv'
+  have hd3 := daysInMonth_le (civilOfOrd o.toNat).y (civilOfOrd o.toNat).m
+  obtain ⟨a, b, c, d, hp, ha, hb, hc, hd, hval⟩ := pad4_shape hy2
+  refine ⟨a, b :: c :: d :: '-' :: (pad 2 (civilOfOrd o.toNat).m ++ '-' :: (pad 2 (civilOfOrd o.toNat).d ++ rest)),
+    ha, ?_, allDigits_dash a b c d _, ?_, hv, by omega⟩
+  · simp only [dateText, hp, List.append_assoc, List.cons_append, List.nil_append]
+  · rw [readDate?_digits ha hb hc hd (by omega) (by omega), hval]
+
+theorem date_parse (cal : CalLaw) {o : Int} (h : inDateRange o = true) :
+    parseTemporal? (dateText o) = some (.dateOnly o) := by
+  obtain ⟨a, tl, ha, hshape, had, hrd, hv, hord⟩ := dateText_read cal h []
+  rw [List.append_nil] at hshape
+  rw [hshape, parseTemporal?_digit ha had]
+  simp only [parseCal?, hrd, hv, if_true, hord]
+
+theorem umDate_rt (cal : CalLaw) (today : Int) {o : Int} (h : inDateRange o = true) :
+    umDate today (.str (dateText o)) = .ok (.date o) := by
+  simp [umDate, secondsOf?, textOf?, date_parse cal h]
+
+theorem datetime_parse (cal : CalLaw) {us off : Int} (h : inDateRange (localOrd us off) = true)
+    (hm : off % 60 = 0) (hlo : -86400 < off) (hhi : off < 86400) :
+    parseTemporal? (datetimeText us off) = some (.dateTime us (some off)) := by
+  have hpos : (0 : Int) < usPerDay := by decide
+  have hnn := Int.fmod_nonneg_of_pos (us + off * usPerSec) hpos
+  have hlt := Int.fmod_lt_of_pos (us + off * usPerSec) hpos
+  have hsum := Int.fmod_add_fdiv_mul (us + off * usPerSec) usPerDay
+  have htod : ((us + off * usPerSec).fmod usPerDay).toNat < 86400000000 := by
+    unfold usPerDay at hlt hnn ⊢; omega
+  obtain ⟨a, tl, ha, hshape, had, hrd, hv, hord⟩ := dateText_read cal h
+    ('T' :: (todText ((us + off * usPerSec).fmod usPerDay).toNat ++ offText off))
+  have hrt := readTod?_todText htod (offText off) (tailOk_offText off)
+  have hro := readOff?_offText hm hlo hhi
+  have htxt : datetimeText us off = a :: tl := by
+    rw [← hshape]
+    simp only [datetimeText, localOrd, List.append_assoc, List.cons_append]
+  rw [htxt, parseTemporal?_digit ha had]
+  simp only [parseCal?, hrd, hv, Bool.not_true, Bool.false_eq_true, if_false, hrt, hro, Option.getD_some, hord]
+  refine congrArg some ?_
+  have : (localOrd us off - epochOrd) * usPerDay + (((us + off * usPerSec).fmod usPerDay).toNat : Int)
+      - off * usPerSec = us := by
+    unfold localOrd
+    unfold usPerDay usPerSec at *
+    omega
+  rw [this]
+
+theorem umDatetime_rt (cal : CalLaw) (today : Int) {us off : Int} (h : inDateRange (localOrd us off) = true)
+    (hm : off % 60 = 0) (hlo : -86400 < off) (hhi : off < 86400) (hi : instantOk us = true) :
+    umDatetime today (.str (datetimeText us off)) = .ok (.datetime us off) := by
+  simp [umDatetime, secondsOf?, textOf?, datetime_parse cal h hm hlo hhi, hi]
+
+/-! ### The leaf round-trip law for the temporal scalars of `pyLeaves` -/
+
+/-- The core scalars plus the temporal scalars whose text round trip holds for every valid value. -/
+def S1 : Scalar → Bool
+  | .int | .bool | .float | .str | .date | .time | .timedelta => true
+  | _ => false
+
+theorem S1_of_S0 {s : Scalar} (h : S0 s = true) : S1 s = true := by
+  cases s <;> simp [S0] at h <;> rfl
+
+theorem date_leaf_rt (cal : CalLaw) (env : Env) (today : Int) {o : Int} (h : inDateRange o = true) :
+    ∃ m, (pyLeaves env today).mar .date (.date o) = .ok m ∧ (pyLeaves env today).um .date m = .ok (.date o)
+      ∧ hashable m = true ∧ decode m ≠ .none :=
+  ⟨.str (dateText o), by simp [pyLeaves, pyMar, marTemporal, isoText],
+    by simp only [pyLeaves, pyUm]; exact umDate_rt cal today h, rfl, by simp [decode]⟩
+
+theorem time_leaf_rt (env : Env) (today : Int) {us : Nat} {off : Int} (hus : us < 86400000000)
+    (hm : off % 60 = 0) (hlo : -86400 < off) (hhi : off < 86400) :
+    ∃ m, (pyLeaves env today).mar .time (.time us (some off)) = .ok m
+      ∧ (pyLeaves env today).um .time m = .ok (.time us (some off))
+      ∧ hashable m = true ∧ decode m ≠ .none :=
+  ⟨.str (timeText us (some off)), by simp [pyLeaves, pyMar, marTemporal, isoText],
+    by simp only [pyLeaves, pyUm]; exact umTime_rt today hus hm hlo hhi, rfl, by simp [decode]⟩
+
+theorem timedelta_leaf_rt (env : Env) (today : Int) {us : Int} (h : tdOk us = true) :
+    ∃ m, (pyLeaves env today).mar .timedelta (.timedelta us) = .ok m
+      ∧ (pyLeaves env today).um .timedelta m = .ok (.timedelta us)
+      ∧ hashable m = true ∧ decode m ≠ .none :=
+  ⟨.str (durText us), by simp [pyLeaves, pyMar, marTemporal, isoText],
+    by simp only [pyLeaves, pyUm]; exact umTimedelta_rt h, rfl, by simp [decode]⟩
+
+/-- Datetimes: additionally the UTC instant itself must lie in year 1..9999 (the model's
+    `umDatetime` answers `unsupported` otherwise, see `datetime_leaf_rt_fails`). -/
+theorem datetime_leaf_rt (cal : CalLaw) (env : Env) (today : Int) {us off : Int}
+    (h : inDateRange (localOrd us off) = true) (hm : off % 60 = 0) (hlo : -86400 < off) (hhi : off < 86400)
+    (hi : instantOk us = true) :
+    ∃ m, (pyLeaves env today).mar .datetime (.datetime us off) = .ok m
+      ∧ (pyLeaves env today).um .datetime m = .ok (.datetime us off)
+      ∧ hashable m = true ∧ decode m ≠ .none :=
+  ⟨.str (datetimeText us off), by simp [pyLeaves, pyMar, marTemporal, isoText],
+    by simp only [pyLeaves, pyUm]; exact umDatetime_rt cal today h hm hlo hhi hi, rfl, by simp [decode]⟩
+
+/-- `LeafLaws.rt` for `pyLeaves` on `S1`. -/
+theorem pyLeaves_rt_temporal (cal : CalLaw) (env : Env) (today : Int) : ∀ s v, S1 s = true → hasScalar s v = true →
+    ∃ m, (pyLeaves env today).mar s v = .ok m ∧ (pyLeaves env today).um s m = .ok v
+      ∧ hashable m = true ∧ decode m ≠ .none := by
+  intro s v hs hv
+  by_cases h0 : S0 s = true
+  · exact pyLeaves_rt env today s v h0 hv
+  · cases s <;> simp [S1] at hs <;> simp [S0] at h0 <;> cases v <;> simp [hasScalar] at hv
+    case date.date o => exact date_leaf_rt cal env today hv
+    case time.time us off =>
+      cases off with
+      | none => simp at hv
+      | some off =>
+        simp only [Bool.and_eq_true, decide_eq_true_eq, beq_iff_eq] at hv
+        obtain ⟨⟨⟨h1, h2⟩, h3⟩, h4⟩ := hv
+        exact time_leaf_rt env today h1 h2 h3 h4
+    case timedelta.timedelta us => exact timedelta_leaf_rt env today hv
+
 end Typelib
